@@ -412,6 +412,13 @@ func (w *World) BuildBlock(h uint32) *BlockSpec {
 			u := w.G.Users[r.Intn(len(w.G.Users))]
 			b.FCT = append(b.FCT, Burn(h, u.FA(), uint64(1+r.Intn(50))*1e8, i))
 		}
+		// factoid transactions that miss the burn shape in one respect: they credit nothing
+		if h%2 == 0 {
+			u := w.G.Users[r.Intn(len(w.G.Users))]
+			shape := int(h/2) % 7
+			b.FCT = append(b.FCT, NearMissBurn(h, u.FA(), uint64(1+r.Intn(50))*1e8, 10+shape, shape))
+			w.Rep.Count(fmt.Sprintf("fct:near-miss-burn-%d", shape))
+		}
 	}
 	// every activation boundary gets a funded plain conversion submitted just before, at and
 	// just after it, so that conversions are pending across each rule change
@@ -451,6 +458,35 @@ func (w *World) BuildBlock(h uint32) *BlockSpec {
 					w.Rep.Count("batch:asset-spread")
 				}
 			}
+		}
+	}
+	// a transfer whose outputs add up to the input plus 2^64 (three outputs, each below 2^63, to
+	// fresh addresses): "input = sum of transfers" fails only when the sum is not taken modulo
+	// 2^64; validly signed — anyone can write it to the chain
+	if h >= a.TxConv+4 && h%9 == 0 {
+		for _, u := range w.G.Users {
+			if u.IsE && h <= a.RCDE {
+				continue
+			}
+			assets := w.NonZeroAssets(u.FA())
+			if len(assets) == 0 {
+				continue
+			}
+			t := assets[0]
+			var o1, o2, o3 factom.FAAddress
+			r.Read(o1[:])
+			r.Read(o2[:])
+			r.Read(o3[:])
+			const third = uint64(6148914691236517205) // (2^64 - 1) / 3
+			in := uint64(10)
+			if w.Balance(u.FA(), t) < in {
+				continue
+			}
+			tx := fat2.Transaction{Input: fat2.TypedAddressAmountTuple{Address: u.FA(), Amount: in, Type: t},
+				Transfers: []fat2.AddressAmountTuple{{Address: o1, Amount: third}, {Address: o2, Amount: third}, {Address: o3, Amount: third + 1 + in}}}
+			b.TX = append(b.TX, w.G.Batch(h, u, []fat2.Transaction{tx}))
+			w.Rep.Count("batch:outputs-wrap-uint64")
+			break
 		}
 	}
 	nt := r.Intn(5)
